@@ -135,7 +135,18 @@ func buildServerModel(l *Loaded) *ServerModel {
 				res := m.resolver(cs.Root)
 				recv := res.str(cs.Call.Args[pi])
 				for _, u := range uses {
-					bs := &BackendSite{Site: u.Site, Method: u.Method, Recv: recv, Via: fi.Decl.Name.Name, Outer: cs, Args: u.Args, ArgStrs: u.ArgStrs}
+					// Arguments that are parameters of the helper are replaced by the outer call's arguments.
+					args := append([]ast.Expr{}, u.Args...)
+					argStrs := append([]string{}, u.ArgStrs...)
+					for ai, a := range u.Args {
+						if v, ok := objOf(info, a).(*types.Var); ok {
+							if pj := paramIndex(fi, info, v); pj >= 0 && pj < len(cs.Call.Args) {
+								args[ai] = cs.Call.Args[pj]
+								argStrs[ai] = res.str(cs.Call.Args[pj])
+							}
+						}
+					}
+					bs := &BackendSite{Site: u.Site, Method: u.Method, Recv: recv, Via: fi.Decl.Name.Name, Outer: cs, Args: args, ArgStrs: argStrs}
 					if strings.HasSuffix(recv, ".file") {
 						bs.Base = strings.TrimSuffix(recv, ".file")
 					}
@@ -266,3 +277,60 @@ const (
 )
 
 func opTok(mode, base string) string { return "p9.pathNode.opMu:" + mode + "@" + base + ".pathNode" }
+
+// succeededVar returns the variable (resolved name) holding the error result of call, if the
+// state knows that this call was the variable's last definition.
+func (m *ServerModel) errVarOf(st *HState, root *FuncInfo, call *ast.CallExpr) (string, bool) {
+	res := m.resolver(root)
+	for obj, def := range st.Defs {
+		if def == ast.Node(call) {
+			if isErrorType(obj.Type()) {
+				id := ast.NewIdent(obj.Name())
+				_ = id
+				if u, ok := res.uniq[obj]; ok {
+					return u, true
+				}
+				return obj.Name(), true
+			}
+		}
+	}
+	return "", false
+}
+
+func isErrorType(t types.Type) bool {
+	return t != nil && t.String() == "error"
+}
+
+// callSucceeded: at state st it is known that call returned a nil error.
+func (m *ServerModel) callSucceeded(st *HState, root *FuncInfo, call *ast.CallExpr) bool {
+	v, ok := m.errVarOf(st, root, call)
+	return ok && st.holds(v+" == nil", true)
+}
+
+// checkedBy: some call of fn (callee key) with first argument rendering as arg is known to
+// have returned nil at st.
+func (m *ServerModel) checkedBy(st *HState, root *FuncInfo, fnKey, arg string) bool {
+	res := m.resolver(root)
+	// The error variable may have been resolved to its (only) definition.
+	short := fnKey[strings.LastIndex(fnKey, ".")+1:]
+	if st.holds(short+"("+arg+") == nil", true) {
+		return true
+	}
+	for obj, def := range st.Defs {
+		call, ok := def.(*ast.CallExpr)
+		if !ok || calleeKey(m.Info, call) != fnKey || len(call.Args) == 0 {
+			continue
+		}
+		if res.str(call.Args[0]) != arg {
+			continue
+		}
+		name := obj.Name()
+		if u, ok := res.uniq[obj]; ok {
+			name = u
+		}
+		if st.holds(name+" == nil", true) {
+			return true
+		}
+	}
+	return false
+}
